@@ -22,7 +22,7 @@ ASSUMPTIONS = _x1.X1_ASSUMPTIONS + ["responses of commands not listed in RULE ar
 MENU = [("pause",), ("suspend", "none"), ("suspend", "both")]
 _q = ["resp", "count2", "scan2", "nested", "fly1"]
 SPECS = {
-    "quick": [spec(k, MENU, bound=1, ly=1) for k in _q] + [spec("resp", MENU, bound=1, ly=1, pp=1), spec("resp", MENU, bound=1, ly=1, rr=1), spec("count2", MENU, bound=1, ly=1, pp=1)],
+    "quick": [spec(k, MENU, bound=1, ly=1) for k in _q] + [spec("resp", MENU, bound=1, ly=1, pp=1), spec("resp", MENU, bound=1, ly=1, rr=1), spec("count2", MENU, bound=1, ly=1, pp=1), spec("stubbed", MENU, bound=1)],
     "thorough": [spec(k, MENU, bound=1, ly=1, a=a, pp=pp, rr=rr) for k in _q + ["grid22s", "tworuns", "cleanup", "flyonly"] for a in (0, 1) for pp in (0, 1) for rr in (0, 1)]
     + [spec(k, MENU, bound=2, ly=1) for k in ("resp", "tiny")],
 }
@@ -86,7 +86,11 @@ def oracle(scn, obs, ref, schedule):
         if kind != "resp":
             continue
         if id(m) not in first_idx:
-            continue  # under preprocessors the engine may see a different object (mutated message): not judged
+            # the engine never saw this message: a wrapper dropped it (stub_wrapper) - there is no response to it,
+            # so the yield must receive None and certainly not the response to some other message
+            if scn.id == "stubbed" and value is not None:
+                out.append((f"dropped-message-got-a-response:{m.command}", f"yield {k} ({m.command}) was dropped by stub_wrapper but received {_short(value)}"))
+            continue  # (under other preprocessors the engine may see a different object: not judged)
         # the execution whose response the plan finally received: the last time this object was hooked
         i_msg = all_idx[id(m)][-1]
         i_next = next((j for j in msg_positions if j > i_msg), len(tl))
